@@ -137,6 +137,11 @@ func (compilation *compilation) finalizeUsingStatements(tc *typechecker) error {
 	sort.Strings(names)
 	for _, name := range names {
 		uc := compilation.iteaToUsingCheck[name]
+		if uc.checking {
+			// The statement belongs to a file that renders the one that
+			// has just been checked.
+			continue
+		}
 		if !uc.used {
 			return tc.errorf(uc.pos, "predeclared identifier itea not used")
 		}
